@@ -74,6 +74,14 @@ def exclstep(prof, quick, thorough):
 
 
 CONFIG = {
+    "C14": {
+        "rule": ("rapid stepper over bigbuff.Workers in a synctest bubble: rules call(count 1-4, gated task returning a unique value/error; also via Wrap), release(task), wait (launched), "
+                 "burst (2-6 actions without settling, drawn Gosched) and storm (4-12 concurrent callers with self-yielding tasks); oracle at every quiescent point: each task starts once, "
+                 "Call returns exactly its task's result and only after it finished, running <= largest count requested so far, Count()==running, no starvation (a queued task runs whenever "
+                 "nothing holds it back; stranded queue = violation), Wait pending while anything is queued/running and returning afterwards with Count()==0, leak check. "
+                 "non-trivial = a Call with a smaller count than the previous Call arrived while >=1 task was queued; distinct = hash of the op trace."),
+        "jobs": [{"name": "workers", "test": "TestC14Workers", "checks": {"quick": 12000, "thorough": 400000}, "shards": {"quick": 8, "thorough": 16}, "env": {"VKIT_PROFILE": "C14"}}],
+    },
     "C18": {
         "rule": ("rapid stepper in a synctest bubble (virtual time) over ExponentialRetry/FatalError: one closure invoked 1-3 times on one context; operation = gated harness callback "
                  "with a scripted outcome sequence (plain error x j, then success | fatal error wrapped 1-4 deep | plain forever), results nil/non-nil; cancellation planned per round "
